@@ -402,6 +402,30 @@ def walk_order_and_entries(repo, rep, cont):
                             f"tree vectorially without the shared-node check, so an aggregator installed at two positions is filled twice "
                             f"(or the walk's RecursionError surfaces after state has changed)", stmt=f"unguarded entry to _numpy: {fn.qualname}")
 
+    # R16.6: the walk keeps the visited nodes in a set, i.e. it hashes every node; a template is the one slot through which a
+    # node can legitimately be reached again from itself (`s.value = s`, or via Select/Label), so __hash__ must not descend into it:
+    # otherwise the walk dies in hash() with RecursionError and the promised ContainerException never comes
+    from ..model import build_models
+    models = build_models(repo)
+    prims, _ = primitives(repo)
+    r6 = rep.rule("R16.6", "__hash__ of a primitive with a bin template does not descend into the template (the walk's memo hashes every node)", floor=3)
+    for c in prims:
+        m = models[c.name]
+        if not m.template:
+            continue
+        h = repo.method(c, "__hash__")
+        if h is None:
+            raise AnalysisError(f"{c.name}: no __hash__ found")
+        rep.analysed_functions.add(h.construct)
+        sn_ = h.params[0]
+        bad = [n for n in ast.walk(h.node) if isinstance(n, ast.Attribute) and isinstance(n.value, ast.Name) and n.value.id == sn_
+               and n.attr in (m.template, "children") and isinstance(n.ctx, ast.Load)]
+        r6.ob(not bad, f"{c.name}.__hash__ does not read `{m.template}`")
+        for n in bad[:1]:
+            rep.finding("R16.6", h, n, f"{c.name}.__hash__ hashes `{sn_}.{n.attr}`: the cross-reference walk hashes every node it visits (memo set), so a "
+                        f"{c.name} reachable from its own template is no longer diagnosed with ContainerException - hash() recurses until RecursionError",
+                        stmt=f"__hash__ reads the template {n.attr}")
+
 
 def cfgmod_reaches_raise(g, start):
     seen = set()
